@@ -105,6 +105,7 @@ type CallSite struct {
 	Callee  string // function reference as written
 	Ordinal int    // 1-based; 0 = every call
 	Asserts []*Clause
+	Assumes []*Clause // "assume expr": assumed just before the call (an invariant of shared state, listed as an assumption)
 	Pos     Pos
 	Cut     bool // "cutafter": Asserts are the invariants of a path join placed after the call
 }
@@ -149,7 +150,18 @@ type FuncSpec struct {
 	External  bool
 	Opts      map[string]string
 	DynCalls  map[string]string // variable name -> "pure" | "noeffect": how calls through that func variable are treated
+	Monitors  []*Monitor        // mutexes treated as monitors: guarded locations are re-read when the lock is acquired
 	Reenter   []*Reenter        // interference: what code reached through the named callees may do to this unit's state
+}
+
+// Monitor declares that a mutex of the unit protects some locations: "monitor m.mu guards locs invariant inv". When the
+// unit acquires the mutex, other goroutines may have changed the guarded locations since the unit last looked: they are
+// forgotten and only the invariant is known about them; the invariant is an obligation when the mutex is released.
+type Monitor struct {
+	Lock   Expr
+	Guards []Expr
+	Inv    *Clause
+	Pos    Pos
 }
 
 // Reenter is a rely clause of a unit: "reenter f, g modifies locs". Calls to f or g made by the unit may run code
@@ -227,7 +239,101 @@ type TypeInv struct {
 	Pkg  string
 }
 
+// Footprint is a named list of locations with parameters: "footprint MapState(m) = MapOf(m.dirty), m.read.v, ...". A use
+// MapState(x) in a modifies, guards or reenter list stands for the locations with x substituted for m.
+type Footprint struct {
+	Name   string
+	Params []string
+	Locs   []Expr
+	Pos    Pos
+}
+
+// Subst replaces identifiers by expressions (capture is not an issue: footprints bind no variables).
+func Subst(e Expr, m map[string]Expr) Expr {
+	switch e := e.(type) {
+	case *Ident:
+		if r, ok := m[e.Name]; ok {
+			return r
+		}
+		return e
+	case *Unary:
+		return &Unary{Op: e.Op, X: Subst(e.X, m)}
+	case *Binary:
+		return &Binary{Op: e.Op, X: Subst(e.X, m), Y: Subst(e.Y, m)}
+	case *Cond:
+		c := &Cond{C: Subst(e.C, m), A: Subst(e.A, m)}
+		if e.B != nil {
+			c.B = Subst(e.B, m)
+		}
+		return c
+	case *Call:
+		c := &Call{Fun: e.Fun}
+		if _, isSel := e.Fun.(*Sel); isSel {
+			c.Fun = Subst(e.Fun, m)
+		}
+		for _, a := range e.Args {
+			c.Args = append(c.Args, Subst(a, m))
+		}
+		return c
+	case *Index:
+		return &Index{X: Subst(e.X, m), I: Subst(e.I, m)}
+	case *SliceEx:
+		r := &SliceEx{X: Subst(e.X, m)}
+		if e.Lo != nil {
+			r.Lo = Subst(e.Lo, m)
+		}
+		if e.Hi != nil {
+			r.Hi = Subst(e.Hi, m)
+		}
+		return r
+	case *Sel:
+		return &Sel{X: Subst(e.X, m), Name: e.Name}
+	case *Quant:
+		return &Quant{Forall: e.Forall, Var: e.Var, Type: e.Type, Body: Subst(e.Body, m)}
+	}
+	return e
+}
+
+// ExpandFootprints replaces footprint uses in a location list.
+func ExpandFootprints(locs []Expr, fps map[string]*Footprint) ([]Expr, error) {
+	var out []Expr
+	for _, l := range locs {
+		inner := l
+		var cond Expr
+		if c, ok := l.(*Cond); ok && c.B == nil {
+			inner, cond = c.A, c.C
+		}
+		call, ok := inner.(*Call)
+		if !ok {
+			out = append(out, l)
+			continue
+		}
+		id, ok := call.Fun.(*Ident)
+		if !ok || fps[id.Name] == nil {
+			out = append(out, l)
+			continue
+		}
+		fp := fps[id.Name]
+		if len(call.Args) != len(fp.Params) {
+			return nil, fmt.Errorf("footprint %s expects %d argument(s)", fp.Name, len(fp.Params))
+		}
+		m := map[string]Expr{}
+		for i, p := range fp.Params {
+			m[p] = call.Args[i]
+		}
+		for _, fl := range fp.Locs {
+			e := Subst(fl, m)
+			if cond != nil {
+				e = &Cond{C: cond, A: e}
+			}
+			out = append(out, e)
+		}
+	}
+	return out, nil
+}
+
 type File struct {
+	Footprints []*Footprint
 	TypeInvs []*TypeInv
 	Reps     []*Represents
 	Path     string
